@@ -101,8 +101,10 @@ def merge_routine(ctx, rule='C12-R2'):
         ctx.check(len(sites) >= 1, rule, caller, cf.node.name, cf.loc(),
                   f'{caller} does not merge through adjust_nested_dict',
                   instance=f'{caller} -> adjust_nested_dict')
+        af = p.func(adj, rule)
         for e in sites:
-            a0 = e.call[2][0] if e.call[2] else None
+            bound = fx._bind(af, e.call[2], e.call[3])
+            a0 = bound.get(af.params[0])
             if caller.endswith('set_prms'):
                 ctx.check(a0 == G, rule, caller, e.node, e.loc(),
                           f'set_prms merges into {T.show(a0)} instead of the global dictionary',
@@ -117,7 +119,7 @@ def merge_routine(ctx, rule='C12-R2'):
                 ctx.check(a0 is not None and not fx.origin(a0, True, cf), rule, caller, e.node, e.loc(),
                           f'_setup_prms merges into {T.show(a0, maxlen=80)}, which is not a private '
                           'deep copy', instance='_setup_prms: target is a private deep copy')
-                a1 = e.call[2][1] if len(e.call[2]) > 1 else None
+                a1 = bound.get(af.params[1])
                 ctx.check(a1 == ('p', 'prms'), rule, caller, e.node, e.loc(),
                           f'_setup_prms merges {T.show(a1)} instead of the per-call dictionary',
                           instance='_setup_prms: source is the per-call dictionary')
@@ -127,6 +129,15 @@ def merge_routine(ctx, rule='C12-R2'):
     stores = [e for e in evs if e.kind in ('store', 'aug', 'mutcall', 'del')
               and T.root(e.base) == ref or (e.kind in ('store', 'aug') and tag(T.root(e.base)) == 'lphi'
                                             and T.root(e.base)[2] == f.params[0])]
+    # a store of a value chosen by a conditional expression counts as one store per alternative
+    from dataclasses import replace as _replace
+    split = []
+    for e in stores:
+        if e.kind == 'store' and tag(e.value) == 'phi':
+            split.extend(_replace(e, value=v, guard=T.mk_and([e.guard, g])) for g, v in e.value[1])
+        else:
+            split.append(e)
+    stores = split
     ctx.floor(rule, 'stores into the reference dictionary', len(stores), 2)
 
     def known_key_literal(lit):
